@@ -114,3 +114,25 @@ Print Assumptions C16_producer_model_meets_check_predicate.
 Theorem C16_requested_options_reach_reader : forall o, apply_to_reader (o_r o) default_ropts = requested_ropts o.
 Proof. exact applied_reader_opts_are_requested. Qed.
 Print Assumptions C16_requested_options_reach_reader.
+
+(* -- histories: ONE consumer / producer value, built once with options o, used for several calls. The answers are, call
+   by call, the answers of the calls alone under the SAME options (the skipped-lines count does not run down, nothing
+   of an earlier call is left), and each satisfies the predicate the check evaluates. The check runs such histories on
+   the code and re-reads every earlier result after the later calls. *)
+Theorem C16_consume_history_pointwise : forall parse render o l,
+  length (consume_history parse render o l) = length l /\
+  (forall k x, nth_error l k = Some x ->
+     nth_error (consume_history parse render o l) k = Some (consume parse render o (fst x) (snd x))) /\
+  (forall k x, nth_error l k = Some x ->
+     consume_ok parse render o (fst x) (snd x) (consume parse render o (fst x) (snd x)) true RNone = true).
+Proof. exact consume_history_pointwise. Qed.
+Print Assumptions C16_consume_history_pointwise.
+
+Theorem C16_produce_history_pointwise : forall parse render o l,
+  length (produce_history parse render o l) = length l /\
+  (forall k s, nth_error l k = Some s ->
+     nth_error (produce_history parse render o l) k = Some (produce parse render o s)) /\
+  (forall k s, nth_error l k = Some s ->
+     produce_ok parse render o s (produce parse render o s) RNone = true).
+Proof. exact produce_history_pointwise. Qed.
+Print Assumptions C16_produce_history_pointwise.
